@@ -13,7 +13,6 @@
 # License for the specific language governing permissions and limitations
 # under the License.
 
-import copy
 import logging
 import six
 import sqlalchemy
@@ -29,7 +28,7 @@ from kmip.core import attributes
 from kmip.core import enums
 from kmip.core import exceptions
 
-from kmip.core.objects import MACData, KeyWrappingData
+from kmip.core.objects import MACData, KeyWrappingData, KeyMaterial
 
 from kmip.core.factories import attributes as attribute_factory
 from kmip.core.factories import secrets
@@ -2659,10 +2658,13 @@ class KmipEngine(object):
                     encryption_key=key.value
                 )
 
-                wrapped_object = copy.deepcopy(managed_object)
-                wrapped_object.value = result
-
-                core_secret = self._build_core_object(wrapped_object)
+                # Put the wrapped key material into the object built for the
+                # response. The stored object is left untouched (and is not
+                # copied: copying a loaded database object is not reliable).
+                core_secret = self._build_core_object(managed_object)
+                core_secret.key_block.key_value.key_material = KeyMaterial(
+                    result
+                )
                 key_wrapping_data = KeyWrappingData(
                     wrapping_method=wrapping_method,
                     encryption_key_information=key_info,
